@@ -531,3 +531,45 @@ fn enc_flate_p1() {
     std::mem::forget(got);
     assert!(ok);
 }
+
+/// truncated / odd-sized predictor data: D symbolic data bytes that do NOT form whole rows -- value or error, never a panic
+fn flate_ragged<const T: usize, const D: usize>(predictor: i32, colors: i32, bpc: i32, columns: i32) {
+    let payload: [u8; T] = kani::any();
+    let mut data = [0u8; D];
+    data[0] = 0x01; data[1] = T as u8; data[2] = 0; data[3] = !(T as u8); data[4] = 0xff;
+    let mut i = 0; while i < T { data[5 + i] = payload[i]; i += 1; }
+    let params = LZWFlateParams { predictor, n_components: colors, bits_per_component: bpc, columns, early_change: 1 };
+    let got = okv(flate_decode(&data, &params));
+    if let Some(g) = &got { assert!(g.len() <= T); }
+    std::mem::forget(got);
+}
+// rows of 1 tag + 2 bytes; 5 bytes = one row and a row that is one byte short; 4 bytes = one row + tag only; 2 bytes = short first row
+#[kani::proof]
+#[kani::stub(std::fmt::format, nofmt)]
+fn enc_flate_ragged_t5() { flate_ragged::<5, 10>(12, 1, 8, 2) }
+#[kani::proof]
+#[kani::stub(std::fmt::format, nofmt)]
+fn enc_flate_ragged_t4() { flate_ragged::<4, 9>(12, 1, 8, 2) }
+#[kani::proof]
+#[kani::stub(std::fmt::format, nofmt)]
+fn enc_flate_ragged_t2() { flate_ragged::<2, 7>(15, 1, 8, 2) }
+
+/// hostile decode parameters (C14): one of Colors / BitsPerComponent / Columns ranges over EVERY i32 while the other two take
+/// extreme values (-1, 0, 1, i32::MAX) -- a symbolic three-way product is beyond the SAT back end. Error or value, never a panic
+/// (the parameters come straight from the /DecodeParms dictionary).
+fn flate_hostile(colors: i32, bpc: i32, columns: i32) {
+    let data = [0x01u8, 2, 0, !2u8, 0xff, 0, 0];
+    let params = LZWFlateParams { predictor: 12, n_components: colors, bits_per_component: bpc, columns, early_change: 1 };
+    let got = okv(flate_decode(&data, &params));
+    if let Some(g) = &got { assert!(g.len() <= 2); }
+    std::mem::forget(got);
+}
+#[kani::proof]
+#[kani::stub(std::fmt::format, nofmt)]
+fn enc_flate_hostile_colors() { let v: i32 = kani::any(); flate_hostile(v, i32::MAX, i32::MAX); flate_hostile(v, 8, -1); flate_hostile(v, 1, 1); }
+#[kani::proof]
+#[kani::stub(std::fmt::format, nofmt)]
+fn enc_flate_hostile_bits() { let v: i32 = kani::any(); flate_hostile(i32::MAX, v, i32::MAX); flate_hostile(-1, v, 1); flate_hostile(1, v, 1); }
+#[kani::proof]
+#[kani::stub(std::fmt::format, nofmt)]
+fn enc_flate_hostile_columns() { let v: i32 = kani::any(); flate_hostile(i32::MAX, i32::MAX, v); flate_hostile(1, 8, v); flate_hostile(0, 0, v); }
